@@ -133,7 +133,7 @@ theorem closed_snoc (isZ : α → Bool) (pre : PauliOp α) (e : PS × α) (suf :
     | nil => cases h : isZ e.2 <;> simp [closed, h]
     | cons s suf => cases h : isZ e.2 <;> simp [closed, h]
   | cons a p =>
-    have hpos : decide ((a :: p ++ e :: suf).length > 1) = true := by simp; omega
+    have hpos : decide ((a :: p ++ e :: suf).length > 1) = true := by simp
     rw [hpos, Bool.and_true]
     cases h : isZ e.2
     · have hk : (p ++ [e]).filter (fun p => !isZ p.2) ++ suf = p.filter (fun p => !isZ p.2) ++ e :: suf := by
